@@ -14,6 +14,9 @@ WITNESSES = ["cc_at_ccx_day", "hiadj_above_hi0_day", "yield_formation_day", "zro
 NONTRIVIAL = ["hiadj_above_hi0_day", "zroot_at_zmax_day", "cold_day_gdd0", "hot_day_gdd_max", "table_above_zmax_day",
               "root_pushed_up_by_table", "early_canopy_decline_day"]
 
+for _x in (0.5, 0.9, 1.4):
+    A.SOILS.setdefault(f"restr{_x}", {"type": "custom", "layers": [[_x, 0.15, 0.30, 0.45, 500.0, 100], [4.0 - _x, 0.20, 0.35, 0.47, 100.0, 30]]})
+
 STRESS_WORDS = {
     "normal": dict(word="normal"),
     "warm": dict(word="warm"),
@@ -85,6 +88,18 @@ def scenarios(tier, seed=0):
     for name in (names if tier != "quick" else sub):
         spec = A.catalogue_spec(name, soil="custom3", dz="nonuni", word="warm", irr="smt")
         yield {"kind": "spec", "spec": spec, "label": ["restrictive", name]}
+    # a restrictive layer whose top lies at every position relative to the maximum rooting depth (above, straddling a compartment that
+    # contains Zmax, below), on two thickness lists
+    for xi, x in enumerate((0.5, 0.9, 1.4)):
+        A.SOILS.setdefault(f"restr{x}", {"type": "custom", "layers": [[x, 0.15, 0.30, 0.45, 500.0, 100], [4.0 - x, 0.20, 0.35, 0.47, 100.0, 30]]})
+    for name in (["Wheat", "Maize"] if tier == "quick" else ["Wheat", "Maize", "Cotton", "Potato"]):
+        for x in (0.5, 0.9, 1.4):
+            for zmax in (0.6, 1.0, 1.5):
+                for dz in ("nonuni", "d12"):
+                    if dz == "d12" and x >= 1.2:
+                        continue     # the second layer would hold no compartment of a 1.2 m list: not a representable soil
+                    spec = A.catalogue_spec(name, soil=f"restr{x}", dz=dz, word="warm", irr="smt", cropkw={"Zmax": zmax, "Zmin": 0.3})
+                    yield {"kind": "spec", "spec": spec, "label": ["restrictive-vs-zmax", name, x, zmax, dz]}
     # keyword overrides of the envelope parameters, with and without pre-season days (start before planting)
     over = [{"Zmin": 0.5, "Zmax": 1.2}, {"Zmin": 0.15, "Zmax": 0.9, "CCx": 0.7}, {"HI0": 0.3, "dHI0": 5}, {"Tbase": 6.0, "Tupp": 28.0}, {"Aer": 12, "Zmin": 0.45}]
     for name in (sub if tier == "quick" else names):
